@@ -127,6 +127,22 @@ CLAIMED['C10'] = dict(
     technique='CBMC on mechanically extracted real functions, bounded argument lists',
     design='5/C10')
 
+CLAIMED['C28'] = dict(
+    level='other',
+    text='BOUNDED: trie.cpp compiled whole and trie.hpp/trie.tpp de-templated (TM := int) over a sorted-array std::map stub; symbolic tries of depth <= 2 (quick) / <= 3 (thorough) over {a,b} with a symbolic present bit and value index per node, queries over {a,b,c} up to depth+1: '
+         'unfrozen get/getValueIndex/getLongest/has/size/nodeCount and frozen freeze layout/getLongest/get/has/size/refreeze/defrost/clear equal a plain path-walk reference and each other; add/remove as one-operation inductive steps from every bounded invariant state; '
+         'the frozen lookup loop C-extracted with loop contracts (dfcc) proved memory-safe and terminating for ANY query length with nodeCount <= 16.',
+    note='bounds as stated; trusted: CBMC C/C++ front ends, std::map stub, shape enumeration workaround for unwinding. Not reached: trie::operator= / copy constructor, print, history steps at depth 3.',
+    technique='CBMC on mechanically extracted real functions over a bounded symbolic trie; dfcc loop contracts for the frozen lookup',
+    design='5/C28')
+CLAIMED['C24'] = dict(
+    level='other',
+    text='BOUNDED, string/key escaping codec only: the string_ case of dumpToString, the object-key emission, json::loadString and the quoted-key branch of loadObjectField are cut out of json.cpp by anchored markers each run; for every byte string without NUL of length <= 4 (quick) / <= 6 (thorough): '
+         'loading the dumped text yields the string and consumes exactly the dumped text, for values and for object keys; dump is injective; the \\uXXXX branch has its own helper contract.',
+    note='bounded by string length; trusted: CBMC C++ front end, fixed-capacity std::string stub. Not reached: numbers, nesting, indentation, unquoted keys, hashing, determinism of whole-tree dumps.',
+    technique='CBMC on marker-extracted real code blocks, bounded string length',
+    design='5/C24')
+
 PENDING_REASON = 'check not built yet in this session (planned, see DESIGN.md section 5); not claimed until it runs'
 
 
